@@ -236,6 +236,21 @@ class Models(object):
                 raise Unsupported('list of bound method')
             items = ex.iter_concrete(path, a)
             return [(path, ex.new_list(path, items) if obj is list else VTuple(items))]
+        if obj is map and len(args) >= 2:
+            lists = [ex.iter_concrete(path, a) for a in args[1:]]
+            n = min(len(l) for l in lists)
+            states = [(path, [])]
+            from .exec import Raise
+            for i in range(n):
+                nxt = []
+                for p, acc in states:
+                    if isinstance(acc, Raise):
+                        nxt.append((p, acc))
+                        continue
+                    for p2, v in ex.call(p, args[0], [l[i] for l in lists], {}):
+                        nxt.append((p2, v if isinstance(v, Raise) else acc + [v]))
+                states = nxt
+            return [(p, acc if isinstance(acc, Raise) else ex.new_list(p, acc)) for p, acc in states]
         if obj is dict and not args and not kw:
             return [(path, ex.new_dict(path, []))]
         if obj is set and not args:
